@@ -74,7 +74,9 @@ Definition tr_hdrs (l : list (N * (hdr * cproof))) : tr :=
   TL (map (fun x => TL [TN (fst x); TB (hd_hash (fst (snd x))); TB (hd_prev (fst (snd x)));
                         TB (vs_pkh (hd_next (fst (snd x)))); TB (vs_vph (hd_next (fst (snd x))));
                         TL (map TN (vs_keys (hd_next (fst (snd x))))); TL (map TN (vs_pows (hd_next (fst (snd x)))));
-                        tr_cproof (snd (snd x)); TN (if vs_ok (hd_next (fst (snd x))) then 1 else 0)])
+                        tr_cproof (snd (snd x)); TN (if vs_ok (hd_next (fst (snd x))) then 1 else 0);
+                        TL [TB (vs_pkh (hd_vals (fst (snd x)))); TB (vs_vph (hd_vals (fst (snd x))));
+                            TL (map TN (vs_keys (hd_vals (fst (snd x))))); TL (map TN (vs_pows (hd_vals (fst (snd x)))))]])
           (fold_right insert_hd [] l)).
 
 Definition observe (s : kstate) : tr :=
@@ -215,22 +217,24 @@ Definition conv_class (ref got : tr) : N :=
   else if tr_prefix (chain_of ref) (chain_of got) && ((h1 <? h2) || ((h1 =? h2) && (r1 <=? r2))) then 1
   else 2.
 
-Fixpoint conv_trace_bad (cls : N) (i : nat) (s : kstate) (steps : list (xop * N * tr)) : option nat :=
+(** [redos]: indices of the crashed steps whose successor is the REDELIVERY of the same operation (the
+    harness tells which; a crashed operation that is not offered again is not judged) *)
+Fixpoint conv_trace_bad (redos : list nat) (cls : N) (i : nat) (s : kstate) (steps : list (xop * N * tr)) : option nat :=
   match steps with
   | [] => None
   | (XCrash k o, r, ob) :: (((XOp o', r', ob') :: _) as rest) =>
       let bad := match step s o with
-                 | Ok (sref, _) => conv_class (observe sref) ob' =? cls
+                 | Ok (sref, _) => existsb (Nat.eqb i) redos && (conv_class (observe sref) ob' =? cls)
                  | Panic _ => false
                  end in
       if bad then Some (S i) else
       match xstep s (XCrash k o) with
-      | Ok (s', _) => conv_trace_bad cls (S i) s' rest
+      | Ok (s', _) => conv_trace_bad redos cls (S i) s' rest
       | Panic _ => None
       end
   | (x, _, _) :: rest =>
       match xstep s x with
-      | Ok (s', _) => conv_trace_bad cls (S i) s' rest
+      | Ok (s', _) => conv_trace_bad redos cls (S i) s' rest
       | Panic _ => None
       end
   end.
